@@ -22,7 +22,7 @@
 EXTENDS Obs
 
 PInit == [sent |-> Empty, nsent |-> Empty, del |-> Empty, over |-> Empty, pings |-> Empty, pongs |-> Empty,
-          outCalled |-> Empty, outSeen |-> Empty, closedBy |-> Empty]
+          outCalled |-> Empty, outSeen |-> Empty, closedBy |-> Empty, saw1009 |-> Empty]
 
 Sent(p, a) == Get(p.nsent, a, 0)
 Del(p, a) == Get(p.del, a, 0)
@@ -39,9 +39,6 @@ Clauses(o, ev, o2, p) ==
             IF ev.match THEN <<>> ELSE <<F("pong", "payload")>>
       [] ev.e = "wire" /\ ev.kind = "ws_msg" ->
             IF ev.idx = ev.seq /\ ev.idx >= 1 THEN <<>> ELSE <<F("send-fidelity", ev.mkind)>>
-      [] ev.e = "wire" /\ ev.kind = "ws_close" ->
-            \* 1009 although no message exceeded the limit (a message of exactly the limit is legal)
-            IF ev.code = 1009 /\ Over(p, ev.app) = 0 THEN <<F("limit-boundary", "1009-without-oversize-message")>> ELSE <<>>
       [] ev.e = "quiescent" ->
             LET Healthy(a) == Connected(o) /\ ~o.paused /\ App(o, a).disc = 0 /\ App(o, a).kind = "websocket"
                               /\ Wire(o, a).ends = 0 /\ Get(p.closedBy, a, "") = "" /\ ~o.illegal
@@ -52,7 +49,11 @@ Clauses(o, ev, o2, p) ==
                 Unsent(a) == /\ Healthy(a) /\ App(o, a).parked # "send" /\ App(o, a).sendExc = 0
                              /\ Get(p.outSeen, a, 0) < Get(p.outCalled, a, 0)
                              /\ (Req(o, a).ver # "2" \/ (SWin(o, a) > 0 /\ o.cwin > 0))
-            IN (IF \E a \in DOMAIN o.apps : Undel(a) THEN <<F("undelivered", "")>> ELSE <<>>)
+                \* 1009 although no message exceeded the limit (a message of exactly the limit is legal);
+                \* judged at the end, when every message the client started has been accounted for
+                Spurious(a) == o.final /\ Get(p.saw1009, a, FALSE) /\ Over(p, a) = 0
+            IN (IF \E a \in DOMAIN p.saw1009 : Spurious(a) THEN <<F("limit-boundary", "1009-without-oversize-message")>> ELSE <<>>)
+            \o (IF \E a \in DOMAIN o.apps : Undel(a) THEN <<F("undelivered", "")>> ELSE <<>>)
             \o (IF \E a \in DOMAIN p.over : No1009(a) THEN <<F("no-1009", "")>> ELSE <<>>)
             \o (IF \E a \in DOMAIN p.pings : NoPong(a) THEN <<F("pong", "missing")>> ELSE <<>>)
             \o (IF \E a \in DOMAIN p.outCalled : Unsent(a) THEN <<F("send-fidelity", "not-delivered")>> ELSE <<>>)
@@ -72,7 +73,8 @@ PStep(p, o, ev, o2) ==
       [] ev.e = "wire" /\ ev.kind = "ws_pong" -> [p EXCEPT !.pongs = Put(@, ev.app, Get(p.pongs, ev.app, 0) + 1)]
       [] ev.e = "wire" /\ ev.kind = "ws_msg" -> [p EXCEPT !.outSeen = Put(@, ev.app, Get(p.outSeen, ev.app, 0) + 1)]
       [] ev.e = "wire" /\ ev.kind = "ws_close" ->
-            [p EXCEPT !.closedBy = IF Get(p.closedBy, ev.app, "") = "" THEN Put(@, ev.app, "server") ELSE @]
+            [p EXCEPT !.closedBy = IF Get(p.closedBy, ev.app, "") = "" THEN Put(@, ev.app, "server") ELSE @,
+                      !.saw1009 = IF ev.code = 1009 THEN Put(@, ev.app, TRUE) ELSE @]
       [] ev.e = "app_call" /\ ev.op = "send" ->
             IF ev.m.type = "websocket.send"
             THEN [p EXCEPT !.outCalled = Put(@, ev.app, Get(p.outCalled, ev.app, 0) + 1)]
